@@ -195,6 +195,15 @@ func RunC14(c *core.Ctx) {
 						cases = append(cases, c14case{t: t, role: role, state: s, timed: true, kind: "prompt", path: path, out: &out, factor: f})
 					}
 				}
+				// a timed state with a transition to itself (streaming states): the
+				// timer must be re-armed by every message, not only on entering
+				for _, ed := range edges[s] {
+					if timed && ed.to == s && cfg.StateMap[s].Agency != protocol.AgencyNone {
+						ed := ed
+						cases = append(cases, c14case{t: t, role: role, state: s, timed: true, kind: "selfloop", path: path, out: &ed, factor: 0.33})
+						break
+					}
+				}
 			}
 			// one chain per role
 			cases = append(cases, c14case{t: t, role: role, kind: "chain", factor: 0.33})
@@ -400,6 +409,37 @@ func runC14(c *core.Ctx, cs c14case, T time.Duration, r *core.Rand) {
 		}
 		c.Count("stall_untimed_stayed_quiet", 1)
 		c.Distinct("stall-untimed", label, cs.state.String())
+	case "selfloop":
+		// five messages that keep the state, each after ~T/3: longer than T in
+		// total, never longer than T/2 between two of them
+		maxGap := time.Duration(0)
+		for k := 0; k < 5; k++ {
+			before := lastTrans()
+			time.Sleep(time.Duration(float64(T) * cs.factor))
+			o := step(*cs.out)
+			ts, fired := firstTimeout()
+			if fired {
+				if d := ts.at.Sub(before); d < T/2 {
+					c.Violation("C14:"+t.Name+":timeout-fired-early:selfloop", fmt.Sprintf("%s: timeout error %v after the last message in the self-looping state %s (message %d of a stream with one message every ~%v, scaled timeout %v): the timer is not re-armed per message", label, d, cs.state, k+1, time.Duration(float64(T)*cs.factor), T), wit(map[string]any{"message": k + 1}))
+				} else {
+					c.Count("selfloop_not_judged_gap_in_middle_band", 1)
+				}
+				return
+			}
+			if o.v != vAccepted {
+				c.Count("selfloop_step_not_accepted_"+o.v.String(), 1)
+				return
+			}
+			if g := lastTrans().Sub(before); g > maxGap {
+				maxGap = g
+			}
+		}
+		if maxGap < T/2 {
+			c.Count("selfloop_no_timeout_while_streaming", 1)
+			c.Distinct("selfloop", label, cs.state.String())
+		} else {
+			c.Count("selfloop_not_judged_gap_in_middle_band", 1)
+		}
 	case "prompt":
 		time.Sleep(time.Duration(float64(T) * cs.factor))
 		o := step(*cs.out)
